@@ -880,7 +880,38 @@ def unusual_exceptions(ctx, clock, classes):
     clock.auto = None
 
 
+def reused_progress(ctx, clock):
+    """a Progress object (console, html, a composite of them) kept by the caller and passed to run() twice renders both runs:
+    the last rendering of the second run shows the second run's counts"""
+    import uberjob
+    from uberjob.progress import console_progress, html_progress, composite_progress
+    clock.auto, clock.log = F(0), []
+    pages = []
+    html = html_progress(pages.append)
+    for name, prog in (("console", console_progress), ("composite(console, html)", composite_progress(console_progress, html)), ("html", html)):
+        outs = []
+        for k in (1, 2):
+            plan = uberjob.Plan()
+            with plan.scope("run%d" % k):
+                xs = [plan.call(lambda i=i: i) for i in range(k + 1)]
+            del pages[:]
+            buf = io.StringIO()
+            with contextlib.redirect_stdout(buf):
+                uberjob.run(plan, output=xs, progress=prog, max_workers=1)
+            outs.append((buf.getvalue(), [p_.decode() for p_ in pages]))
+        ctx.case(("reused-progress", name))
+        text, pg = outs[1]
+        want = "%d / %d" % (3, 3)
+        shown = (want in text and "run2" in text) if "console" in name else True
+        shown_html = (any(want in x and "run2" in x for x in pg[-1:])) if "html" in name else True
+        if not (shown and shown_html):
+            ctx.fail("reused-progress", "%s kept by the caller and used for a second run: the second run's last rendering does not show its counts (3 / 3 in scope run2); "
+                     "console printed %d characters, html pages written %d" % (name, len(text), len(pg)), {"progress": name})
+    clock.auto = None
+
+
 def threaded(ctx, sp, pool, clock, classes, pool_index):
+    reused_progress(ctx, clock)
     unusual_exceptions(ctx, clock, classes)
     lookalikes(ctx, clock, classes)
     many_failures(ctx, clock, classes)
